@@ -450,6 +450,7 @@ func (s *vStep) life() {
 		verifAtomicSet(s, "closed", step.RunningStepStateRunning, "")
 		s.complete("closed", "result", s.closedResult())
 		s.fail("enabling", "disabled", "starting", "running", "outputs")
+		s.fail("deploy_failed", "crashed")
 		return
 	}
 	verifAtomicCount(s.run, 1, 0)
@@ -458,6 +459,7 @@ func (s *vStep) life() {
 		s.complete("deploy_failed", "error", map[any]any{"error": "deployment failed"})
 		s.fail("enabling", "disabled", "starting", "running", "outputs")
 		s.fail("closed")
+		s.fail("crashed")
 		return
 	}
 	s.change("deploy", "", nil, "enabling", step.RunningStepStateWaitingForInput)
@@ -467,6 +469,7 @@ func (s *vStep) life() {
 		verifAtomicSet(s, "closed", step.RunningStepStateRunning, "")
 		s.complete("closed", "result", s.closedResult())
 		s.fail("starting", "running", "outputs")
+		s.fail("disabled", "deploy_failed", "crashed")
 		return
 	}
 	if !(in["enabled"] == nil || in["enabled"] == true) {
@@ -474,15 +477,16 @@ func (s *vStep) life() {
 		s.complete("disabled", "output", map[any]any{"message": "disabled"})
 		s.fail("starting", "running", "outputs")
 		s.fail("closed")
+		s.fail("deploy_failed", "crashed")
 		return
 	}
-	s.fail("disabled")
 	s.change("enabling", "resolved", map[any]any{"enabled": true}, "starting", step.RunningStepStateWaitingForInput)
 	if _, ok = s.await("starting"); !ok {
 		s.fail("starting")
 		verifAtomicSet(s, "closed", step.RunningStepStateRunning, "")
 		s.complete("closed", "result", s.closedResult())
 		s.fail("running", "outputs")
+		s.fail("disabled", "deploy_failed", "crashed")
 		return
 	}
 	if s.pick("start", 2) == 1 {
@@ -491,6 +495,7 @@ func (s *vStep) life() {
 		s.complete("crashed", "error", map[any]any{"output": "start failed"})
 		s.fail("running", "outputs")
 		s.fail("closed")
+		s.fail("deploy_failed", "disabled")
 		return
 	}
 	verifAtomicExec(s, true)
@@ -507,16 +512,17 @@ func (s *vStep) life() {
 	case 0:
 		s.change("running", "", nil, "outputs", step.RunningStepStateRunning)
 		s.complete("outputs", "success", map[any]any{"v": verifrt.NondetVal("out." + s.id), "flag": verifrt.NondetBool("flag." + s.id)})
-		s.fail("deploy_failed", "crashed", "closed")
+		s.fail("deploy_failed", "disabled", "crashed", "closed")
 	case 1:
 		s.change("running", "", nil, "outputs", step.RunningStepStateRunning)
 		s.complete("outputs", "error", map[any]any{"v": verifrt.NondetVal("err." + s.id)})
-		s.fail("deploy_failed", "crashed", "closed")
+		s.fail("deploy_failed", "disabled", "crashed", "closed")
 	default:
 		s.change("running", "", nil, "crashed", step.RunningStepStateRunning)
 		s.complete("crashed", "error", map[any]any{"output": "crashed"})
 		s.fail("outputs")
 		s.fail("closed")
+		s.fail("deploy_failed", "disabled")
 	}
 }
 
